@@ -2747,7 +2747,10 @@ util::Result<void> CWallet::DisplayAddress(const CTxDestination& dest)
 void CWallet::LoadLockedCoin(const COutPoint& coin, bool persistent)
 {
     AssertLockHeld(cs_wallet);
-    m_locked_coins.emplace(coin, persistent);
+    // Locking an already locked coin persistently makes the existing lock persistent,
+    // so that unlocking it also erases its database record.
+    auto [it, inserted] = m_locked_coins.emplace(coin, persistent);
+    if (!inserted && persistent) it->second = true;
 }
 
 bool CWallet::LockCoin(const COutPoint& output, bool persist)
